@@ -37,6 +37,22 @@
 #define KIND 1
 #endif
 #define NROUNDS NSUB
+/* The SHAPE of the scenario is concrete per instance (the driver enumerates it): which endpoints accept, which
+ * replies are valid, and in which round each copy comes back; with symbolic shapes the response queue length
+ * becomes symbolic and list.c's element array is written at symbolic indices (measured: 83 M variables).
+ * External error codes stay symbolic; error codes are three fixed, different values. */
+#ifndef ACCEPT
+#define ACCEPT {1, 1, 1}
+#endif
+#ifndef VALID
+#define VALID {1, 0, 0}
+#endif
+#ifndef ROUND
+#define ROUND {0, 0, 0}
+#endif
+static const int sh_accept[3] = ACCEPT;
+static const int sh_valid[3] = VALID;
+static const unsigned sh_round[3] = ROUND;
 
 KSI_IMPLEMENT_LIST(KSI_AsyncHandle, KSI_AsyncHandle_free)                          /* types.c:201-203 */
 KSI_IMPLEMENT_LIST(KSI_HighAvailabilityRequest, KSI_HighAvailabilityRequest_free)
@@ -58,7 +74,7 @@ int KSI_HttpAsyncClient_new(KSI_CTX *ctx, KSI_AsyncClient **c) { (void)ctx; (voi
 struct sub {
 	size_t id;
 	KSI_AsyncHandle *held;      /* the forwarded copy, owned by the sub-service while in flight */
-	int accepted, refusedWith;
+	int willAccept, accepted, refusedWith;
 	unsigned round;             /* round in which the copy comes back */
 	int valid;                  /* outcome: valid reply or error */
 	int err; long errExt;
@@ -80,8 +96,7 @@ static void reply_free(void *p) {
 static int sub_addRequest(void *impl, KSI_AsyncHandle *h) {
 	struct sub *s = (struct sub *)impl;
 	add_calls++;
-	int res = C13_ND_STATUS(sub_add);
-	if (res != KSI_OK) { s->refusedWith = res; return res; }
+	if (!s->willAccept) { s->refusedWith = (s->id == 100) ? KSI_ASYNC_REQUEST_CACHE_FULL : KSI_NETWORK_ERROR; return s->refusedWith; }   /* concrete codes, see below */
 	s->accepted = 1; s->held = h;                       /* ownership taken */
 	h->state = KSI_ASYNC_STATE_WAITING_FOR_DISPATCH; h->parentId = s->id;
 	return KSI_OK;
@@ -129,10 +144,12 @@ void harness(void) {
 		res = KSI_AbstractAsyncService_new(ctx, &as); ASSUME(res == KSI_OK);
 		memset(&subs[i], 0, sizeof(subs[i]));
 		subs[i].id = 100 + i;
-		subs[i].round = ND(unsigned, reply_round); ASSUME(subs[i].round < NROUNDS);
-		subs[i].valid = ND_BOOL(reply_valid);
-		subs[i].err = ND(int, reply_err); ASSUME(subs[i].err != KSI_OK);
-		for (unsigned j = 0; j < i; j++) ASSUME(subs[i].err != subs[j].err);     /* tell the errors apart */
+		subs[i].willAccept = sh_accept[i];
+		subs[i].round = sh_round[i];
+		subs[i].valid = sh_valid[i];
+		/* concrete, pairwise different error codes (a symbolic code makes `err == KSI_OK` in reportErrorNotice a
+		 * two-way branch for symex although it is assumed away, and the queue length symbolic with it) */
+		subs[i].err = (i == 0) ? KSI_NETWORK_RECIEVE_TIMEOUT : (i == 1) ? KSI_ASYNC_CONNECTION_CLOSED : KSI_SERVICE_UPSTREAM_TIMEOUT;
 		subs[i].errExt = ND(long, reply_err_ext);
 		as->impl = &subs[i]; as->impl_free = NULL;
 		as->addRequest = sub_addRequest;
@@ -167,7 +184,9 @@ void harness(void) {
 		CHECK(res != KSI_OK && res == lastRefusal, HN " refused by all endpoints: the endpoint's error is returned");
 		CHECK(user->ref == 2, HN " refused by all endpoints: no reference to the caller's handle is kept");
 		CHECK(KSI_AsyncHandleList_length(has->respQueue) == 0, HN " refused by all endpoints: nothing queued");
+#ifdef SHAPE_ALL_REFUSE
 		WITNESS_POINT("all endpoints refuse");
+#endif
 		return;
 	}
 	CHECK(res == KSI_OK, HN " accepted by at least one endpoint: submission succeeds");
@@ -253,24 +272,16 @@ void harness(void) {
 		CHECK(user->state == KSI_ASYNC_STATE_RESPONSE_RECEIVED, HN " later replies and errors do not alter the completed user handle");
 		for (unsigned i = 0; i < NSUB; i++) if ((int)i == firstValid) CHECK(user->respCtx == subs[i].reply, HN " later valid replies are discarded");
 	}
-	CHECK(user->ref == 1 && haReq->ref == 1, HN " all references of the HA service to the user handle are released at the end");
-#if NSUB >= 2
-	if (firstValid >= 0 && errorsSeen >= 1 && notices >= 1 && subs[firstValid].round > 0) WITNESS_POINT("error first, valid reply later: notice + completion");
-	if (firstValid < 0 && m == NSUB) WITNESS_POINT("all endpoints fail: user handle fails after the last");
-	if (firstValid == 1 && subs[0].accepted && subs[0].valid && subs[0].round > subs[1].round) WITNESS_POINT("second endpoint answers first and wins");
-#endif
-	if (firstValid >= 0 && m < NSUB) WITNESS_POINT("one endpoint refused, another answered");
+	CHECK(haReq->ref == 1 && user->ref == 2, HN " at the end only the observer still holds the HA request (and through it the user handle)");
 #else
 	/* configuration request: every valid reply is consolidated and announced once; failures as for requests */
 	CHECK(consolidate_calls == delivered - errorsSeen && pushcb_calls == consolidate_calls, HN " every configuration reply is consolidated and announced exactly once");
 	CHECK(userQueued == (firstValid < 0 ? 1u : 0u), HN " a configuration request fails (once) only if no endpoint delivered a configuration");
 	for (unsigned i = 0; i < NSUB; i++) if (subs[i].accepted && !subs[i].valid) CHECK(noticeFor[i] == 1, HN " every failed endpoint is reported exactly once (notice, or the user handle's own error)");
 	CHECK(notices + (firstValid < 0 ? 1u : 0u) == errorsSeen, HN " number of notices = failures not reported through the user handle");
-	CHECK(user->ref == 1 && haReq->ref == 1, HN " all references of the HA service to the user handle are released at the end");
-#if NSUB >= 2
-	if (errorsSeen >= 1 && firstValid >= 0 && notices >= 1) WITNESS_POINT("configuration delivered and a failure noticed");
-	if (firstValid < 0 && m == NSUB) WITNESS_POINT("all endpoints fail the configuration request");
+	CHECK(haReq->ref == 1 && user->ref == 2, HN " at the end only the observer still holds the HA request (and through it the user handle)");
 #endif
+#ifndef SHAPE_ALL_REFUSE
+	WITNESS_POINT("scenario ran to completion: every accepted copy came back");
 #endif
-	WITNESS_POINT("history completed");
 }
